@@ -155,8 +155,8 @@ theorem lorentz_matches_reference (ρ : String → ℝ) (hρ : PosEnv ρ) :
     ∃ e f g, findEquiv equivalences "lorentz" = some e ∧
       e.formula Ref.C09.dVelocity Ref.C09.dNone = some f ∧
       e.formula Ref.C09.dNone Ref.C09.dVelocity = some g ∧
-      f.eval ρ = lorentzGamma (ρ "c.clight") (ρ "x") ∧
-      g.eval ρ = lorentzVel (ρ "c.clight") (ρ "x") := by
+      f.eval ρ = lorentzGamma (ρ "c.c") (ρ "x") ∧
+      g.eval ρ = lorentzVel (ρ "c.c") (ρ "x") := by
   have h1 := table_lorentz_shape
   unfold Ref.C09.lorentzOk at h1
   cases he : findEquiv equivalences "lorentz" with
@@ -174,12 +174,12 @@ theorem lorentz_matches_reference (ρ : String → ℝ) (hρ : PosEnv ρ) :
 /-- `v → γ → v` returns `v` for `0 < v < c` (the real-analysis core, `lorentz_real_inverse_v`,
     holds for `0 ≤ v`; the link to the regenerated chain needs a positive input) -/
 theorem lorentz_inverse_v (ρ : String → ℝ) (hρ : PosEnv ρ) (v : ℝ) (hv : 0 < v)
-    (hvc : v < ρ "c.clight") :
+    (hvc : v < ρ "c.c") :
     ∃ e f g, findEquiv equivalences "lorentz" = some e ∧
       e.formula Ref.C09.dVelocity Ref.C09.dNone = some f ∧
       e.formula Ref.C09.dNone Ref.C09.dVelocity = some g ∧
       g.eval (withX ρ (f.eval (withX ρ v))) = v := by
-  have hc := hρ "c.clight"
+  have hc := hρ "c.c"
   obtain ⟨e, f, g, he, hf, hg, ef, _⟩ := lorentz_matches_reference (withX ρ v) (posEnv_withX hρ hv)
   have hγ : 0 < f.eval (withX ρ v) := by
     rw [ef]; simp only [withX]; exact lorentzGamma_pos hc hv.le hvc
@@ -199,7 +199,7 @@ theorem lorentz_inverse_gamma (ρ : String → ℝ) (hρ : PosEnv ρ) (γ : ℝ)
       e.formula Ref.C09.dVelocity Ref.C09.dNone = some f ∧
       e.formula Ref.C09.dNone Ref.C09.dVelocity = some g ∧
       f.eval (withX ρ (g.eval (withX ρ γ))) = γ := by
-  have hc := hρ "c.clight"
+  have hc := hρ "c.c"
   have hγ0 : 0 < γ := by linarith
   obtain ⟨e, f, g, he, hf, hg, _, eg⟩ := lorentz_matches_reference (withX ρ γ) (posEnv_withX hρ hγ0)
   have hv : 0 < g.eval (withX ρ γ) := by
@@ -371,7 +371,7 @@ def C09_full : Prop :=
       ∃ e f, findEquiv equivalences r.equiv = some e ∧ e.formula r.src r.dst = some f ∧
         f.eval ρ = r.formula.eval ρ)
   -- Lorentz, both ways
-  ∧ (∀ ρ : String → ℝ, PosEnv ρ → ∀ v : ℝ, 0 < v → v < ρ "c.clight" →
+  ∧ (∀ ρ : String → ℝ, PosEnv ρ → ∀ v : ℝ, 0 < v → v < ρ "c.c" →
       ∃ e f g, findEquiv equivalences "lorentz" = some e ∧
         e.formula Ref.C09.dVelocity Ref.C09.dNone = some f ∧
         e.formula Ref.C09.dNone Ref.C09.dVelocity = some g ∧
@@ -421,7 +421,7 @@ example : ∃ e, findEquiv equivalences "thermal" = some e ∧ Ref.C09.dMass ≠
   decide +kernel
 
 /-- the Lorentz hypotheses are satisfiable: `0 < 1 < c = 2`, `1 < γ = 2` -/
-example : (0 : ℝ) < 1 ∧ (1 : ℝ) < (fun _ : String => (2 : ℝ)) "c.clight" ∧ (1 : ℝ) < 2 := by
+example : (0 : ℝ) < 1 ∧ (1 : ℝ) < (fun _ : String => (2 : ℝ)) "c.c" ∧ (1 : ℝ) < 2 := by
   norm_num
 
 end Unyt.C09
